@@ -419,16 +419,26 @@ def zw_queries(queries, outdir, dw=False):
         extra = ['-DZWQ_DW', '-ldw', '-lelf']
     native(['g++', '-std=c++14', '-O1', '-I%s/libzwerg' % REPO, '-I%s/libzwerg' % bdir, '-I' + bdir,
             os.path.join(VERIF, 'tools', 'zwq.cc')] + objs + ['-rdynamic', '-o', exe] + extra)
+    def parse(out):
+        res = []
+        for ln in out.split('\n'):
+            if ln.startswith('Q'):
+                head, _, rest = ln.partition(':')
+                parts = head.split()
+                if len(parts) >= 2 and parts[1] == 'EXCEPTION':
+                    res.append((None, ln))
+                else:
+                    res.append((int(parts[1]), rest.strip()))
+        return res
     rc, out, err, w = run([exe] + list(queries), timeout=120)
-    res = []
-    for ln in out.split('\n'):
-        if ln.startswith('Q'):
-            head, _, rest = ln.partition(':')
-            parts = head.split()
-            if len(parts) >= 2 and parts[1] == 'EXCEPTION':
-                res.append((None, ln))
-            else:
-                res.append((int(parts[1]), rest.strip()))
+    res = parse(out)
+    if len(res) != len(queries):
+        # the runner died on one of the queries (crash in the real library): run them one by one
+        res = []
+        for q in queries:
+            rc, out, err, w = run([exe, q], timeout=60)
+            one = parse(out)
+            res.append(one[0] if len(one) == 1 else (None, 'Q1 EXCEPTION the real library crashed (exit status %s)' % rc))
     return res
 
 
